@@ -1447,8 +1447,10 @@ void Validator::ValidatorImpl::validateReset(const ResetPtr &reset, const Compon
         description += "with variable '" + reset->variable()->name() + "', ";
         auto var = reset->variable();
         auto varParent = owningComponent(var);
-        varParentName = varParent->name();
-        if (varParentName != component->name()) {
+        if (varParent != nullptr) {
+            varParentName = varParent->name();
+        }
+        if ((varParent == nullptr) || (varParentName != component->name())) {
             varOutsideComponent = true;
         }
     }
@@ -1460,8 +1462,10 @@ void Validator::ValidatorImpl::validateReset(const ResetPtr &reset, const Compon
 
         auto var = reset->testVariable();
         auto varParent = owningComponent(var);
-        testVarParentName = varParent->name();
-        if (testVarParentName != component->name()) {
+        if (varParent != nullptr) {
+            testVarParentName = varParent->name();
+        }
+        if ((varParent == nullptr) || (testVarParentName != component->name())) {
             testVarOutsideComponent = true;
         }
     }
